@@ -87,6 +87,9 @@ def default_init(name, args):
     return (1.0,)
 
 
+_CIR_HINT = [False]
+
+
 def check_series(ctx, mon, who, name, series, n_paths, n_steps, dtype_want, init, kind, sig, exact0=True, explosive=False, overflow_hint=False):
     """series: tensor; kind in price / variance / volatility / real. Returns False after recording a violation."""
     def bad(key, msg, **kw):
@@ -100,8 +103,10 @@ def check_series(ctx, mon, who, name, series, n_paths, n_steps, dtype_want, init
     if not bool(torch.isfinite(series).all()):
         i = (~torch.isfinite(series)).nonzero()[0].tolist()
         key = "non_finite"
-        if dtype_want in (torch.float16, torch.bfloat16) and ("generate_cir" in who or "generate_heston" in who):
-            # exp(-kappa dt) rounds to 1 in half precision -> zero conditional variance -> 0 * inf in the QE step
+        if dtype_want in (torch.float16, torch.bfloat16) and ("generate_cir" in who or "generate_heston" in who) and _CIR_HINT[0]:
+            # the conditional variance s2 evaluates to exactly 0 in half precision (exp(-kappa dt) rounds to 1, or the term that survives at zero
+            # variance underflows) -> psi = 0 -> 0 * inf in the quadratic branch of the QE step
+            # (_CIR_HINT: set by the caller's contract from kappa, dt and the dtype - the finding is this regime, not every half-precision NaN)
             key = "cir.half_precision_nan"
         elif "generate_kou_jump" in who and overflow_hint:
             # exp((mu - lambda m) t) is formed as a separate factor and overflows the dtype although the price itself is representable
@@ -171,6 +176,18 @@ def _mk_gen(name):
                        "N=1" if n_paths == 1 else "N>1")
                 who = f"{name}(n_paths={n_paths}, n_steps={n_steps}, init_state={tuple(as_float(z) for z in init)}, dtype={args.get('dtype')})"
                 ok = True
+                _CIR_HINT[0] = False
+                if name in ("generate_cir", "generate_heston") and dtype in (torch.float16, torch.bfloat16):
+                    # the library's own expression for the conditional variance s2, in the dtype, at the initial variance and at variance 0 (which the
+                    # scheme reaches): s2 == 0 there means psi = 0, b = inf, a = 0 and the quadratic branch evaluates 0 * inf
+                    kp, th, sg, dt_ = (torch.as_tensor(float(args[z])).to(dtype) for z in ("kappa", "theta", "sigma", "dt"))
+                    ex_ = (-kp * dt_).exp()
+                    v0_ = torch.as_tensor(float(as_float(init[-1]))).to(dtype)
+
+                    def s2_(v_):
+                        return v_ * (sg ** 2) * ex_ * (1 - ex_) / kp + th * (sg ** 2) * ((1 - ex_).square()) / (2 * kp)
+
+                    _CIR_HINT[0] = bool(s2_(v0_) == 0) or bool(s2_(torch.zeros_like(v0_)) == 0)
                 if name in ("generate_heston", "generate_rough_bergomi"):
                     expl = bool(torch.isfinite(out.variance).all()) and float(out.variance.max()) * float(args["dt"]) > 40.0
                     ok = check_series(ctx, mon, who, "spot", out.spot, n_paths, n_steps, dtype, init[0], "price", sig, exact0=(name != "generate_heston"),
